@@ -59,7 +59,7 @@ seeded changes and which check catches which in §11.
   | U8 | `indentation::indent` | equals the spec function of C19 | C19, C04 |
   | U9 | `indentation::dedent` | removes exactly the margin the statement defines; theorems over that postcondition: idempotent (outside KF4's input class), and `dedent(indent(s, p)) == dedent(s)` (texts without carriage returns, whitespace prefixes without line break: outside KF8's class) | C18, C04 |
   | U10 | `fill::fill_inplace` | same length; bytes change only `' '` → `'\\n'`, and exactly at the run ends first-fit makes of each line's ASCII words; `from_utf8(..).unwrap()` cannot fail | C17, C04 |
-  | U11 | `wrap::wrap`, `wrap_single_line`, `wrap_single_line_slow_path` | every line starts with its indent; **for the whole text** line k is `indent_k ++ text[a_k..b_k] ++ (nothing \| "-")` with slices in order, on char boundaries, separated only by spaces and at most one line ending; **no slice ends in a space** (ASCII-space separator, built-in splitters); the line breaker gets the widths of the indents actually rendered (and a zero-width first fragment when the first line is the narrower one); >= 1 line per paragraph, earlier lines untouched; the shortcut's exact result, and (first-fit, built-in splitters) the slow path gives that same line when entered under the shortcut's condition; **`wrap` computes the paragraph-wise function `wrap_fn(split(text, E), options)`** (each of the three functions: the appended lines are a function of paragraph, options and "does it start the output"), with the relational clauses of C09 (independence of paragraphs, `wrap(b)` for empty indents, never fewer lines than paragraphs, LF↔CRLF) and C08 (what follows the indent depends on the indents' widths and emptiness only) as theorems over it | C08, C01, C02, C09, C05, C04 |
+  | U11 | `wrap::wrap`, `wrap_single_line`, `wrap_single_line_slow_path` | every line starts with its indent; **for the whole text** line k is `indent_k ++ text[a_k..b_k] ++ (nothing \| "-")` with slices in order, on char boundaries, separated only by spaces and at most one line ending; **no slice ends in a space** (ASCII-space separator; any splitter, a custom one under A15); the line breaker gets the widths of the indents actually rendered (and a zero-width first fragment when the first line is the narrower one); >= 1 line per paragraph, earlier lines untouched; the shortcut's exact result, and (first-fit, built-in splitters) the slow path gives that same line when entered under the shortcut's condition; **`wrap` computes the paragraph-wise function `wrap_fn(split(text, E), options)`** (each of the three functions: the appended lines are a function of paragraph, options and "does it start the output"), with the relational clauses of C09 (independence of paragraphs, `wrap(b)` for empty indents, never fewer lines than paragraphs, LF↔CRLF) and C08 (what follows the indent depends on the indents' widths and emptiness only) as theorems over it | C08, C01, C02, C09, C05, C04 |
   | U12 | `fill::fill_slow_path`, `fill::fill` | both equal `wrap`'s lines joined by the line ending — shortcut included | C09, C05, C04 |
   | U13 | `word_separators::find_words_ascii_space` (closure, R16), `WordSeparator::find_words` (the dispatcher), `enum WordSeparator` | words are `Word::from(line[s0..s1])` at exactly the space→non-space boundaries; they tile the line; no word holds a space and only the first can be without text (`tails_ok`); `AsciiSpace` is served by `find_words_ascii_space` on the same line | C11, C01, C17 |
   | U14 | `word_splitters::split_words` (closure, R16) | pieces cut exactly at the split points, hyphen penalty rule, whitespace/penalty on the last piece only; tiling; pieces of a word with text are non-empty sub-slices (`tails_ok` kept) | C12, C01 |
@@ -79,8 +79,8 @@ seeded changes and which check catches which in §11.
   convicted by Verus obligations on the pinned text *and* by BEC; F3 (C11) and F4 (C18) by BEC. Eight further findings
   (KF1–KF8) are recorded as open known findings with reasons (§5).
 * **What stays bounded** (per property; details in §4):
-  - C01: pointer identity of borrowed lines; "a slice never ends in a space except after a forced break" for the Unicode separator and for
-    custom splitters (for the ASCII-space separator with the built-in splitters it is proved);
+  - C01: pointer identity of borrowed lines; "a slice never ends in a space except after a forced break" for the Unicode separator
+    (for the ASCII-space separator it is proved, for every splitter — a custom one under its A15 obligation);
   - C02: the text-level statement (display width of each rendered line, with its single-fragment exception);
   - C03: optimality proper (needs real arithmetic and total monotonicity; that smawk's table holds *minima*);
   - C04: "optimal-fit never reports an overflow error" (float magnitudes), the inside of `unicode-linebreak` / `unicode-width`, the
@@ -219,7 +219,7 @@ restatement and callee would show up there within scope.
 | U11 `vx_split_words`: tiling kept, cached widths correct | U14 `vx_split_words_collect` | same clauses |
 | U11 `break_words` (requires cached widths correct): tiling kept | U6 `break_words` | same clause, same precondition |
 | U6 `vx_vec_extend_break_apart` (requires non-empty text) | U15 `vx_break_apart_collect` | same clauses (pieces non-empty, each a sub-slice `is_sub` of the word's text) |
-| U11 `vx_find_words` (`is_ascii_space(sep) ==> tails_ok`), `vx_split_words` (`is_builtin_splitter && tails_ok(in) ==> tails_ok(out)`), `break_words` (`tails_ok(in) ==> tails_ok(out)`) — C01's last sentence | U13 `find_words` (the dispatcher: `AsciiSpace` selects `find_words_ascii_space` on this line) + `vx_collect_ascii_words`; U14 `vx_split_words_collect`; U6 `break_words` (+ U15) | same predicate `tails_ok` (same text in the four units: no word holds a space; a word without text has nothing in front of it); U14 proves it for every splitter whose split points satisfy `valid_points` (the built-in ones: U16), U11 uses it for the built-in ones only; `is_ascii_space(sep)` in U11 stands for `sep is AsciiSpace` in U13 |
+| U11 `vx_find_words` (`is_ascii_space(sep) ==> tails_ok`), `vx_split_words` (`tails_ok(in) ==> tails_ok(out)`), `break_words` (`tails_ok(in) ==> tails_ok(out)`) — C01's last sentence | U13 `find_words` (the dispatcher: `AsciiSpace` selects `find_words_ascii_space` on this line) + `vx_collect_ascii_words`; U14 `vx_split_words_collect`; U6 `break_words` (+ U15) | same predicate `tails_ok` (same text in the four units: no word holds a space; a word without text has nothing in front of it); U14 proves it for every splitter whose split points satisfy `valid_points` (the built-in ones: U16; a custom one: its author's obligation A15, exactly as for the tiling clause); `is_ascii_space(sep)` in U11 stands for `sep is AsciiSpace` in U13 |
 | U11, U13, U20 `vx_word_from` / `word_from_post` | U6 `Word::from` | the five clauses of U6, or a subset |
 | U11 `vx_wrap_algorithm_wrap`: ordered partition | U17 `WrapAlgorithm::wrap` → U1, U2 (`partition`) | same four clauses (`runs_concat` and `concat_lines` are the same fold) |
 | U10 `vx_ascii_find_words_collect`, `vx_wrap_first_fit_1` | U13, U1 | same clauses, plus "the result is a function of the argument" (purity) |
